@@ -153,11 +153,11 @@ Proof. induction ops as [|[o rs] r IH]; simpl; intros s s' Hc G H; [inversion H;
   apply andb_prop in Hc. destruct Hc as [Ho Hr]. destruct (step s o rs) as [s1|] eqn:S; [|discriminate].
   apply (IH s1 s' Hr); auto. destruct (step_D s o rs s1 Ho G S). split; [eapply step_inv; [apply G|exact S]|auto]. Qed.
 
-Theorem global_counter : forall nt0 ng0 ops s, (0 < nt0)%nat -> (0 < ng0)%nat ->
-  forallb (fun p => prod_op (fst p)) ops = true -> run (init nt0 ng0) ops = Ok s ->
+Theorem global_counter : forall hold nt0 ng0 ops s, (0 < nt0)%nat -> (0 < ng0)%nat ->
+  forallb (fun p => prod_op (fst p)) ops = true -> run (init_h hold nt0 ng0) ops = Ok s ->
   h_cur (s_up s) = SQu (s_up s) /\ h_cur (s_dn s) = SQu (s_dn s).
-Proof. intros nt0 ng0 ops s Hn Hg Hp R.
-  assert (F0 : FullSt (init nt0 ng0)).
+Proof. intros hold nt0 ng0 ops s Hn Hg Hp R.
+  assert (F0 : FullSt (init_h hold nt0 ng0)).
   { split; [apply init_inv; auto|]. destruct (empty_half_good nt0 ng0 0 Hn Hg) as (_ & _ & _ & _ & A).
     destruct (empty_half_good nt0 ng0 3 Hn Hg) as (_ & _ & _ & _ & B). auto. }
   destruct (run_full ops _ _ Hp F0 R) as (_ & A & B). unfold D in *. lia. Qed.
